@@ -9,8 +9,15 @@ Neg1 == -1
 Neg2 == -2
 Neg3 == -3
 V == LO..HI
-Init == \E bx \in V, by \in V, ex \in V, ey \in V :
+\* initial connectors: every connector add_connector can create, and connectors as a DOCUMENT may hold them ("load": a:off / a:ext /
+\* flipH / flipV given directly) - among them the frames no sequence of calls produces from a created connector in one step:
+\* a zero extent with the flip attribute set
+LoadAx == {[p |-> p, d |-> d, f |-> f] : p \in V, d \in {0, 1}, f \in BOOLEAN}
+Init == \/ \E bx \in V, by \in V, ex \in V, ey \in V :
           LET a == [op |-> "create", bx |-> bx, by |-> by, ex |-> ex, ey |-> ey, v |-> 0] IN
+          hist = <<a>> /\ st = CxnImplStep([x |-> 0], a)
+        \/ \E h \in LoadAx, w \in LoadAx : ((h.d = 0 /\ h.f) \/ (w.d = 0 /\ w.f)) /\
+          LET a == [op |-> "load", bx |-> 0, by |-> 0, ex |-> 0, ey |-> 0, v |-> 0, x |-> h.p, cx |-> h.d, fh |-> h.f, y |-> w.p, cy |-> w.d, fv |-> w.f] IN
           hist = <<a>> /\ st = CxnImplStep([x |-> 0], a)
 Set(op, v) == Len(hist) <= DEPTH /\ LET a == [op |-> op, v |-> v, bx |-> 0, by |-> 0, ex |-> 0, ey |-> 0] IN
                 st' = CxnImplStep(st, a) /\ hist' = Append(hist, a)
